@@ -133,6 +133,18 @@ func hostileGroups(full bool) []hgroup {
 					fr := rw.Frame(uint32(wire.MainNet), cmd, b)
 					gs = append(gs, hgroup{dec: "frame", c: c, kind: "seed", seed: fr, spans: frameSpans(len(b)), cmd: cmd, label: dom[i].label})
 					gs = append(gs, hgroup{dec: "frame", c: c, kind: "reframe", seed: b, spans: sp, cmd: cmd, label: dom[i].label, allClaims: full || nframe == 2})
+					// BIP324 plaintext of the same message, offered both as an
+					// exact-capacity slice and as a sub-slice of a larger buffer
+					hdr := rw.V2Header(cmd)
+					v2 := rw.FrameV2(cmd, b)
+					v2sp := []rw.Span{{Off: 0, Len: len(hdr), Path: "v2-message-type"}}
+					for _, x := range sp {
+						x.Off += len(hdr)
+						v2sp = append(v2sp, x)
+					}
+					for _, d := range []string{"framev2", "framev2-sub"} {
+						gs = append(gs, hgroup{dec: d, c: c, kind: "seed", seed: v2, spans: v2sp, cmd: cmd, label: dom[i].label, allClaims: full || nframe == 2})
+					}
 				}
 				if c.Pver == 0 {
 					switch cmd {
@@ -149,6 +161,9 @@ func hostileGroups(full bool) []hgroup {
 		}
 	}
 	addShort("frame", rw.Ctx{Pver: 70016})
+	addShort("framev2", rw.Ctx{Pver: 70016})
+	addShort("framev2-sub", rw.Ctx{Pver: 70016})
+	addShort("framev2", rw.Ctx{Pver: 70016, Witness: true})
 	addShort("txloc", rw.Ctx{Witness: true})
 	addShort("btcutil.tx", rw.Ctx{Witness: true})
 	addShort("btcutil.block", rw.Ctx{Witness: true})
@@ -227,6 +242,47 @@ func mutants(g *hgroup, full bool, f func(k int, in []byte) bool) {
 		return ok
 	})
 	if !ok {
+		return
+	}
+	if strings.HasPrefix(g.dec, "framev2") {
+		payload := seed[len(rw.V2Header(g.cmd)):]
+		// every short id, known or not, in front of this payload
+		for id := 1; id < 256; id++ {
+			if !emit(append([]byte{byte(id)}, payload...)) {
+				return
+			}
+		}
+		// long form with well formed and malformed commands
+		cmds := [][]byte{
+			[]byte(g.cmd),                              // long form even if a short id exists
+			append([]byte(g.cmd), 0, 'x'),              // embedded NUL
+			append(append([]byte(g.cmd), 0), g.cmd...), // embedded NUL, again
+			append([]byte{0}, []byte(g.cmd)...),        // leading NUL
+			append([]byte(g.cmd), ' '),                 // non-NUL padding
+			[]byte("versionversi"),                     // 12 bytes without NUL
+			{0xff, 0xfe, 0xfd},                         // invalid UTF-8
+			{},                                         // empty command
+			[]byte(strings.ToUpper(g.cmd)),
+			[]byte("wtxidrelay"), []byte("sendaddrv2"), []byte("verack"), []byte("version"),
+			[]byte("cmpctblock"), []byte("sendcmpct"), // BIP324 ids this package does not implement
+		}
+		for _, cm := range cmds {
+			h := make([]byte, 13)
+			copy(h[1:], cm)
+			for i := len(cm) + 1; i < 13 && bytes.HasSuffix(cm, []byte{' '}); i++ {
+				h[i] = ' ' // space padded instead of NUL padded
+			}
+			full13 := append(h, payload...)
+			// the 13 byte type prefix cut at every length, with and without payload
+			for n := 1; n <= 13; n++ {
+				if !emit(full13[:n]) {
+					return
+				}
+			}
+			if !emit(full13) {
+				return
+			}
+		}
 		return
 	}
 	if g.dec == "frame" {
@@ -447,6 +503,22 @@ func decodeOnce(dec string, c rw.Ctx, in []byte) (res dres) {
 		n, m, pl, err := wire.ReadMessageWithEncodingN(rd, c.Pver, wire.MainNet, wireEnc(c))
 		res.err, res.value, res.payload, res.consumed = err, m, pl, n
 		res.moved = len(in) - rd.Len()
+	case dec == "framev2":
+		// exact capacity: a read past len(in) panics instead of silently
+		// seeing bytes of the caller's buffer
+		p := make([]byte, len(in))
+		copy(p, in)
+		m, pl, err := wire.ReadV2MessageN(p[:len(p):len(p)], c.Pver, wireEnc(c))
+		res.err, res.value, res.payload, res.consumed = err, m, pl, len(in)
+	case dec == "framev2-sub":
+		// a prefix of a larger buffer whose tail holds foreign bytes
+		p := make([]byte, len(in)+64)
+		copy(p, in)
+		for i := len(in); i < len(p); i++ {
+			p[i] = 0x61 + byte(i%7)
+		}
+		m, pl, err := wire.ReadV2MessageN(p[:len(in)], c.Pver, wireEnc(c))
+		res.err, res.value, res.payload, res.consumed = err, m, pl, len(in)
 	case dec == "varint":
 		rd := bytes.NewReader(in)
 		v, err := wire.ReadVarInt(rd, c.Pver)
@@ -606,6 +678,44 @@ func canon(dec string, c rw.Ctx, in []byte, res *dres) (fs []finding) {
 		} else if strictCanon(m.Command(), c, res.payload, m) && (n != len(used) || !bytes.Equal(buf.Bytes(), used)) {
 			// only demanded where no exemption of canonMsg applies
 			bad("reframe", "re-framing the accepted message: %s", firstDiff(buf.Bytes(), used))
+		}
+	case strings.HasPrefix(dec, "framev2"):
+		m := res.value.(wire.Message)
+		cmd := m.Command()
+		hl := 1
+		if len(used) == 0 {
+			bad("v2-header", "accepted an empty plaintext")
+			return
+		}
+		if used[0] == 0 {
+			hl = 13
+			if len(used) < 13 {
+				bad("v2-header", "accepted a %d byte plaintext in the 13 byte long form", len(used))
+				return
+			}
+			if got := string(bytes.TrimRight(used[1:13], "\x00")); got != cmd {
+				bad("v2-header", "long form command %q decoded as %q", got, cmd)
+				return
+			}
+		} else if id, ok := rw.V2ShortID[cmd]; !ok || id != used[0] {
+			bad("v2-header", "short id %d decoded as %q (BIP324 assigns %d, known=%v)", used[0], cmd, id, ok)
+			return
+		}
+		if !bytes.Equal(res.payload, used[hl:]) {
+			bad("v2-payload", "returned payload is not the plaintext behind the message type: %s", firstDiff(res.payload, used[hl:]))
+			return
+		}
+		fs = append(fs, canonMsg(cmd, c, res.payload, m)...)
+		if strictCanon(cmd, c, res.payload, m) && bytes.Equal(used, rw.FrameV2(cmd, res.payload)) {
+			var buf bytes.Buffer
+			n, err := wire.WriteV2MessageN(&buf, m, c.Pver, wireEnc(c))
+			if err != nil {
+				if !reencodeExempt(m, c) {
+					bad("reframe-error", "WriteV2MessageN cannot re-send an accepted message: %v", err)
+				}
+			} else if n != len(used) || !bytes.Equal(buf.Bytes(), used) {
+				bad("reframe", "re-framing the accepted v2 message: %s", firstDiff(buf.Bytes(), used))
+			}
 		}
 	case dec == "varint":
 		if re := rw.CompactSize(res.value.(uint64)); !bytes.Equal(re, used) {
